@@ -17,13 +17,12 @@ BlockOf(b) == [parent |-> b.parent, num |-> b.num, txs |-> b.txs, nonce |-> Fn(b
 Entry(m)  == [tx |-> m.tx, id |-> m.id]
 EntrySeq(s) == [i \in DOMAIN s |-> Entry(s[i])]
 
-(* store ids the implementation chose in this step, by transaction (index first, else limbo) *)
+(* store ids the implementation chose in this step, by transaction, per store *)
 Hint(s) ==
   LET inIdx == UNION {{Entry(s.idx[a][i]) : i \in DOMAIN s.idx[a]} : a \in Accts}
       inLim == ToSet(s.limbo)
-      txs   == {e.tx : e \in inIdx} \cup {e.tx : e \in inLim}
-  IN [t \in txs |-> IF \E e \in inIdx : e.tx = t THEN (CHOOSE e \in inIdx : e.tx = t).id
-                    ELSE (CHOOSE e \in inLim : e.tx = t).id]
+  IN [q |-> [t \in {e.tx : e \in inIdx} |-> (CHOOSE e \in inIdx : e.tx = t).id],
+      l |-> [t \in {e.tx : e \in inLim} |-> (CHOOSE e \in inLim : e.tx = t).id]]
 
 (* the logged projection determines the abstract pool ... *)
 PoolOf(s, P) ==
@@ -41,7 +40,7 @@ Bookkeeping(s, P) ==
         /\ m.bfj = m.tx.bfj /\ m.blj = m.tx.blj /\ m.cost = m.tx.cost /\ m.size = m.tx.sz /\ m.has
         /\ m.evtip = EvTip(P.idx[a], i) /\ m.evbf = EvBf(P.idx[a], i) /\ m.evbl = EvBl(P.idx[a], i)
   /\ \A a \in Accts : /\ s.spent[a] = SumCost(P.idx[a])
-                      /\ s.nonce[a] = P.st.nonce[a] + Len(P.idx[a])
+                      /\ s.nonce[a] = IF P.idx[a] = <<>> THEN P.st.nonce[a] ELSE Last(P.idx[a]).tx.nonce + 1
                       /\ s.pview[a] = [i \in DOMAIN s.idx[a] |-> s.idx[a][i].tx]
   /\ s.stored = Stored(P.idx)
   /\ Len(s.store) = Cardinality(DOMAIN P.store)
@@ -61,7 +60,7 @@ Step(A) == l <= Len(Trace) /\ A /\ l' = l + 1
 TInit == Step(/\ Ev.op = "init"
               /\ cfg' = Ev.cfg
               /\ blocks' = (0 :> BlockOf(Ev.genesis))
-              /\ head' = 0 /\ final' = 0 /\ owed' = {}
+              /\ head' = 0 /\ final' = 0 /\ owed' = {} /\ stale' = {} /\ misaligned' = {}
               /\ pool' = [InitPool([nonce |-> Fn(Ev.genesis.nonce), bal |-> Fn(Ev.genesis.bal)], Ev.genesis.bfj, Ev.genesis.blj)
                              EXCEPT !.tip = Ev.tip]
               /\ last' = [op |-> "init", err |-> "ok"]
@@ -81,7 +80,7 @@ TraceInit == /\ l = 1
              /\ cfg = [cap |-> 1, bump |-> 100]
              /\ blocks = (0 :> [parent |-> 0, num |-> 0, txs |-> <<>>, nonce |-> [a \in Accts |-> 0],
                                 bal |-> [a \in Accts |-> 0], bfj |-> 0, blj |-> 0])
-             /\ head = 0 /\ final = 0 /\ owed = {}
+             /\ head = 0 /\ final = 0 /\ owed = {} /\ stale = {} /\ misaligned = {}
              /\ pool = InitPool([nonce |-> [a \in Accts |-> 0], bal |-> [a \in Accts |-> 0]], 0, 0)
              /\ last = [op |-> "init", err |-> "ok"]
 TraceNext == TInit \/ TAdd \/ TReset \/ TTip \/ TReopen \/ TCrash
